@@ -674,6 +674,29 @@ func TestC14_Loaders(t *testing.T) {
 				keyPEM = rapid.SampledFrom([][]byte{sm2KeyPEM(t, k1), rsaKeyPEM(0, false)}).Draw(t, "otherkey")
 			}
 		}
+		// file layouts: the loaders take the first block whose type ends in "PRIVATE KEY" from the key input and the CERTIFICATE
+		// blocks from the certificate input, skipping everything else - so one combined file can serve as both inputs
+		switch layout := rapid.SampledFrom([]string{"plain", "plain", "cert_then_key", "params_then_key", "key_then_cert", "text_then_key", "combined_both", "cert_after_other"}).Draw(t, "layout"); layout {
+		case "cert_then_key":
+			keyPEM = append(append([]byte{}, certPEM...), keyPEM...)
+			R.Class("layout:" + layout)
+		case "params_then_key":
+			keyPEM = append(pemBlock("EC PARAMETERS", []byte{0x06, 0x08, 0x2a, 0x81, 0x1c, 0xcf, 0x55, 0x01, 0x82, 0x2d}), keyPEM...)
+			R.Class("layout:" + layout)
+		case "key_then_cert":
+			keyPEM = append(append([]byte{}, keyPEM...), certPEM...)
+			R.Class("layout:" + layout)
+		case "text_then_key":
+			keyPEM = append([]byte("Bag Attributes\n    friendlyName: key\nKey Attributes: <No Attributes>\n"), keyPEM...)
+			R.Class("layout:" + layout)
+		case "combined_both":
+			both := append(append([]byte{}, certPEM...), keyPEM...)
+			certPEM, keyPEM = both, both
+			R.Class("layout:" + layout)
+		case "cert_after_other":
+			certPEM = append(pemBlock("EC PARAMETERS", []byte{0x06, 0x08, 0x2a, 0x81, 0x1c, 0xcf, 0x55, 0x01, 0x82, 0x2d}), certPEM...)
+			R.Class("layout:" + layout)
+		}
 		// the encryption pair handed to the two-pair loaders is always a consistent SM2 pair
 		encCert, encKey := sm2Cert(t, k2, "sm2 enc"), sm2KeyPEM(t, k2)
 		write := func(name string, b []byte) string {
